@@ -36,7 +36,7 @@ const (
 	tagChain   = "chain"  // inside; content loads sub/ldr.lisp which performs the load under test
 	tagLink    = "link"   // inside; content performs the next load of a chain with the primitive the case prescribes for that level
 	tagHist    = "hist"   // inside; content performs up to three loads in a row, each with its errors ignored
-	// tagMulti (oneform.go): inside; content performs 2..3 loads from ONE form, the form the case names
+	// tagMulti+":<form>" (oneform.go): inside; content performs 2..3 loads from ONE form
 )
 
 // theLayout is the layout of DESIGN §C20 with these additions: every
@@ -45,25 +45,25 @@ const (
 // different, identifiable file; a depth-changing directory link (dl2), an
 // absolute link to an outside file (abs_out), a link from outside back into
 // the root (outside/back) and loader files.
-var theLayout = []layoutEnt{
+var theLayout = append(append([]layoutEnt(nil), baseLayout...), oneLayout()...)
+
+// baseLayout: the hand-written part; oneLayout() (oneform.go) adds one loading file per form and directory.
+var baseLayout = []layoutEnt{
 	{"root", kDir, ""},
 	{"root/in.lisp", kFile, tagInside},
 	{"root/ldr.lisp", kFile, tagLoader},
 	{"root/chain.lisp", kFile, tagChain},
 	{"root/hist.lisp", kFile, tagHist},
 	{"root/link.lisp", kFile, tagLink},
-	{"root/multi.lisp", kFile, tagMulti},
 	{"root/sub", kDir, ""},
 	{"root/sub/in.lisp", kFile, tagInside},
 	{"root/sub/ldr.lisp", kFile, tagLoader},
 	{"root/sub/hist.lisp", kFile, tagHist},
 	{"root/sub/link.lisp", kFile, tagLink},
-	{"root/sub/multi.lisp", kFile, tagMulti},
 	{"root/sub/deep", kDir, ""},
 	{"root/sub/deep/in.lisp", kFile, tagInside},
 	{"root/sub/deep/ldr.lisp", kFile, tagLoader},
 	{"root/sub/deep/link.lisp", kFile, tagLink},
-	{"root/sub/deep/multi.lisp", kFile, tagMulti},
 	{"root/sub/up", kLink, ".."},
 	{"root/lnk_in", kLink, "in.lisp"},
 	{"root/lnk_out", kLink, "../outside/secret.lisp"},
@@ -114,6 +114,9 @@ const (
 // fileContent is what is written to disk (and into the MapFS).
 func fileContent(e layoutEnt) string {
 	m := "(mark \"" + fileID(e) + "\")\n"
+	if id, ok := strings.CutPrefix(e.Data, tagMulti+":"); ok {
+		return m + multiContent(id)
+	}
 	switch e.Data {
 	case tagLoader:
 		return m + "(if (" + symLisp + ") (load-file (" + symLoc + ")) (" + symHost + "))\n"
@@ -121,8 +124,6 @@ func fileContent(e layoutEnt) string {
 		return m + "(load-file \"sub/ldr.lisp\")\n"
 	case tagLink:
 		return m + "(if (" + symChainLisp + ") (load-file (" + symChainLoc + ")) (" + symChainGo + "))\n"
-	case tagMulti:
-		return m + multiContent()
 	case tagHist:
 		for i := 0; i < 3; i++ {
 			m += "(ignore-errors (load-file (" + symHLoc + " " + string(rune('0'+i)) + ")))\n"
